@@ -4,7 +4,7 @@ export GOFLAGS=-mod=mod GOPROXY=off GOSUMDB=off GOTOOLCHAIN=local
 patch=$1; check=$2; tier=${3:-quick}
 if [ -n "$(git -C /repo status --porcelain)" ]; then echo "repo dirty"; exit 3; fi
 git -C /repo apply "$patch" || { echo "apply failed"; exit 3; }
-cd /verif && timeout 1800 bin/vcheck "$check" "$tier" > /tmp/try_seed.$$.log 2>&1
+cd /verif && timeout 1800 bin/vcheck "$check" --tier "$tier" > /tmp/try_seed.$$.log 2>&1
 rc=$?
 git -C /repo reset -q && git -C /repo checkout -- . && git -C /repo clean -fdq
 echo "check=$check rc=$rc"
